@@ -98,7 +98,7 @@ def run_tlc(
     own_scratch = scratch is None
     sdir = tempfile.mkdtemp(prefix="vh_tlc_") if own_scratch else scratch
     meta = tempfile.mkdtemp(prefix="meta_", dir=sdir)
-    cmd = ["java", "-XX:+UseParallelGC", f"-Xmx{heap}", f"-DTLA-Library={lib_path()}"]
+    cmd = ["java", "-XX:+UseParallelGC", f"-Xmx{heap}", "-Xss32m", f"-DTLA-Library={lib_path()}"]
     if dfs_queue:
         cmd.append("-Dtlc2.tool.queue.IStateQueue=StateDeque")
     cmd += ["-cp", f"{JAR}:{DEPS}", "tlc2.TLC", "-metadir", meta, "-noGenerateSpecTE",
